@@ -16,6 +16,7 @@ mod pool;
 mod rng;
 mod simserver;
 mod simstorage;
+mod taskmodel;
 
 use serde::{Deserialize, Serialize};
 use std::collections::BTreeMap;
